@@ -12,8 +12,9 @@ open Swat4 Swat4.Drv Std
 
 /-- items that are no repository call and that neither the specification nor the model reacts to: `F<addr>` (the stored JSON
 of `<addr>` gets members this release does not know, as a record written by another release has: decoding ignores them)
-and `R<ns>` (time passes in the storage service: no data key carries a time-to-live) -/
-def inert (it : String) : Bool := (it.startsWith "F" || it.startsWith "R") && !(it.contains '|')
+`R<ns>` (time passes in the storage service: no data key carries a time-to-live) and `L<addr>` (the stored JSON of `<addr>` is
+rewritten with the member names the released program writes: what a previous run left must read back as the same server) -/
+def inert (it : String) : Bool := (it.startsWith "F" || it.startsWith "R" || it.startsWith "L") && !(it.contains '|')
 
 def specStep (acc : AbsState × Int × List String) (it : String) : Option (AbsState × Int × List String) :=
   let (a, clock, rs) := acc
